@@ -190,6 +190,16 @@ def w_misc(arg):
             for ca in (0, 5, 7):
                 do("ic", (r, F.df11(aa, ca, r)))
         acc.out.add((cfg, "ic", r))
+    # the wire field itself at its special values: for every capability and every legal code (and a few corrupt ones) the
+    # one address for which the transmitted PI field reads 000000 / FFFFFF / 000001 although the code is overlaid
+    for r in list(range(80)) + [80, 127, 0x800000]:
+        for ca in ((0, 5, 7) if cfg != "P" else range(8)):
+            for wire in (0x000000, 0xFFFFFF, 0x000001):
+                aa = R.solve_low24((11 << 3) | ca, 8, wire ^ r)
+                m = F.df11(aa, ca, r)
+                assert int(m[-6:], 16) == wire
+                do("ic", (r, m))
+                do("ca", (ca, m))
     # TC28 identity code under every subtype (except 2: ACAS RA) and emergency state
     for code in (0, 0x40, I.encode(7, 5, 0, 0), I.encode(7, 6, 0, 0), I.encode(7, 7, 0, 0), 8191, I.encode(1, 2, 3, 4, 1)):
         for st in range(8):
